@@ -132,7 +132,7 @@ func replayScript(fx *fixtures, sc Script, w *vcommon.Writer, stepTO, hangTO tim
 		_ = w.Write(Rec{E: "reset", Script: sc.ID, St: emptyState("run"), Timeout: "setup: " + err.Error()})
 		return 0, false, true
 	}
-	_ = w.Write(Rec{E: "reset", Script: sc.ID, St: emptyState("run"), Sends: [][]interface{}{}, Rets: [][]interface{}{},
+	_ = w.Write(Rec{E: "reset", Script: sc.ID, St: emptyState("run"), Chain: "idle", Sends: [][]interface{}{}, Rets: [][]interface{}{},
 		Ann: [][2]int{}, AnnHook: [][2]int{}, Missing: []int{}, Errs: []string{}})
 	r := newRunner(e, sc.ID, stepTO, hangTO)
 	steps := sc.Steps
